@@ -104,6 +104,8 @@ def oracle(case, out):
     if out[0] != "ok":
         if k == "complement" or k == "diff" and len(case[1]) != len(case[2]):
             return None
+        if len(out) > 2 and out[1] == "AssertionError" and "count/w" in str(out[2]):
+            return "gc_content(window) is not the correctly rounded fraction count/window: %s" % (out[2],)
         return "implementation raised/hung: %r" % (out,)
     o = out[1]
     if k == "complement":
